@@ -1,14 +1,30 @@
-(* C05/Proofs.v — lemmas: totality (no Crash), allocation bounds, round trips. *)
+(* C05/Proofs.v — lemmas: totality (no Crash, which includes "fuel never exhausted"),
+   allocation bounds. Round trips are in Roundtrip.v. *)
 From Coq Require Import Lia.
 From MV Require Import Base.Prelude C05.Model.
 Open Scope N_scope.
 
+(* inputs are shorter than 2^56 bytes (a Rust slice is at most isize::MAX = 2^63-1 bytes; an
+   x86-64 address space has 2^47) *)
+Definition BOUND : N := 72057594037927936.
+Definition small {A} (bs : list A) : Prop := len bs < BOUND.
+
+Lemma U64_val : U64 = 18446744073709551616. Proof. reflexivity. Qed.
+Lemma BOUND_val : BOUND = 72057594037927936. Proof. reflexivity. Qed.
+Lemma ISIZE_val : ISIZE_MAX = 9223372036854775807. Proof. reflexivity. Qed.
+Global Opaque U64 BOUND ISIZE_MAX.
+
+(* ---------- outcome algebra ---------- *)
 Lemma of_opt_nc {A} (o : option A) : of_opt o <> Crash.
 Proof. destruct o; discriminate. Qed.
 
 Lemma bind_nc {A B} (o : out A) (f : A -> out B) :
   o <> Crash -> (forall a, o = Val a -> f a <> Crash) -> obind o f <> Crash.
 Proof. destruct o; cbn; intros H1 H2; try discriminate; [apply H2; reflexivity | congruence]. Qed.
+
+Lemma bind_val {A B} (o : out A) (f : A -> out B) (b : B) :
+  obind o f = Val b -> exists a, o = Val a /\ f a = Val b.
+Proof. destruct o; cbn; intros H; try discriminate. eauto. Qed.
 
 Lemma versioned_nc {A} (bs : bytes) (legacy : bytes -> out A) :
   legacy bs <> Crash -> versioned bs legacy <> Crash.
@@ -17,10 +33,286 @@ Proof.
   destruct b as [|p]; [exact H|]. destruct p; try exact H. discriminate.
 Qed.
 
-Lemma p_params_legacy_nc bs : p_params_legacy bs <> Crash.
+(* ---------- machine arithmetic ---------- *)
+Lemma madd_ok md a b : a + b < U64 -> madd md a b = Ok (a + b).
+Proof. intros H. unfold madd. apply N.ltb_lt in H. rewrite H. reflexivity. Qed.
+Lemma mmul_ok md a b : a * b < U64 -> mmul md a b = Ok (a * b).
+Proof. intros H. unfold mmul. apply N.ltb_lt in H. rewrite H. reflexivity. Qed.
+Lemma msub_ok md a b : b <= a -> msub md a b = Ok (a - b).
+Proof. intros H. unfold msub. apply N.leb_le in H. rewrite H. reflexivity. Qed.
+Lemma cadd_some a b c : cadd a b = Some c -> c = a + b /\ a + b < U64.
+Proof. unfold cadd. destruct (a + b <? U64) eqn:E; intros H; inversion H. apply N.ltb_lt in E. auto. Qed.
+Lemma cmul_some a b c : cmul a b = Some c -> c = a * b /\ a * b < U64.
+Proof. unfold cmul. destruct (a * b <? U64) eqn:E; intros H; inversion H. apply N.ltb_lt in E. auto. Qed.
+
+(* ---------- slices ---------- *)
+Lemma get_some bs a b s : get bs a b = Some s -> a <= b /\ b <= len bs /\ len s = b - a.
 Proof.
-  unfold p_params_legacy.
-  repeat (apply bind_nc; [apply of_opt_nc | intros ? _]). discriminate.
+  unfold get. destruct ((a <=? b) && (b <=? len bs)) eqn:E; intros H; inversion H; subst; clear H.
+  apply andb_true_iff in E. destruct E as [E1 E2]. apply N.leb_le in E1. apply N.leb_le in E2.
+  repeat split; try assumption.
+  unfold len in *. rewrite firstn_length, skipn_length. lia.
 Qed.
+Lemma get_from_some bs a s : get_from bs a = Some s -> a <= len bs /\ len s = len bs - a.
+Proof. unfold get_from. intros H. apply get_some in H. lia. Qed.
+
+Ltac getb H := first [apply get_some in H | apply get_from_some in H].
+
+(* one step of a totality proof: peel the next bind *)
+Ltac peel :=
+  lazymatch goal with
+  | |- obind (of_opt ?o) _ <> Crash =>
+      let E := fresh "E" in destruct o eqn:E; cbn [of_opt obind]; [|discriminate]
+  | |- obind (of_res (madd _ _ _)) _ <> Crash => rewrite madd_ok; [cbn [of_res obind]|]
+  | |- obind (of_res (mmul _ _ _)) _ <> Crash => rewrite mmul_ok; [cbn [of_res obind]|]
+  | |- obind (of_res (msub _ _ _)) _ <> Crash => rewrite msub_ok; [cbn [of_res obind]|]
+  | |- Val _ <> Crash => discriminate
+  | |- Fail <> Crash => discriminate
+  | |- (if ?c then _ else _) <> Crash => destruct c
+  end.
+
+(* ---------- fixed-size group elements ---------- *)
+Lemma p_sig_nc V bs : p_sig V bs <> Crash.
+Proof. unfold p_sig. repeat peel. Qed.
+Lemma p_vk_nc V bs : p_vk V bs <> Crash.
+Proof. unfold p_vk. repeat peel. Qed.
+Lemma p_sk_nc V bs : p_sk V bs <> Crash.
+Proof. unfold p_sk. repeat peel. Qed.
+Lemma p_vkpop_nc V bs : p_vkpop V bs <> Crash.
+Proof.
+  unfold p_vkpop. peel. apply bind_nc; [apply p_vk_nc|intros vk _].
+  repeat peel.
+Qed.
+
+(* ---------- Parameters ---------- *)
+Lemma p_params_legacy_nc bs : p_params_legacy bs <> Crash.
+Proof. unfold p_params_legacy. repeat peel. Qed.
 Lemma p_params_nc bs : p_params bs <> Crash.
 Proof. apply versioned_nc, p_params_legacy_nc. Qed.
+
+(* ---------- SingleSignature ---------- *)
+Lemma ss_loop_nc md bs n : small bs ->
+  forall fuel i acc, i <= len bs -> len bs < N.of_nat fuel + i -> ss_loop md fuel bs i n acc <> Crash.
+Proof.
+  unfold small. rewrite BOUND_val. intros Hs. induction fuel as [|f IH]; intros i acc Hi Hf.
+  - lia.
+  - cbn [ss_loop]. destruct (i <? n); [|discriminate].
+    peel; [|rewrite U64_val; lia]. peel; [|rewrite U64_val; lia]. peel; [|rewrite U64_val; lia].
+    peel. getb E. apply IH; lia.
+Qed.
+Lemma ss_loop_val md bs n : small bs ->
+  forall fuel i acc r, i <= n -> i <= len bs -> ss_loop md fuel bs i n acc = Val r -> n <= len bs.
+Proof.
+  unfold small. rewrite BOUND_val. intros Hs. induction fuel as [|f IH]; intros i acc r Hn Hi H.
+  - discriminate.
+  - cbn [ss_loop] in H. destruct (i <? n) eqn:Lt.
+    + apply N.ltb_lt in Lt.
+      rewrite mmul_ok in H by (rewrite U64_val; lia). cbn [of_res obind] in H.
+      rewrite !madd_ok in H by (rewrite U64_val; lia). cbn [of_res obind] in H.
+      destruct (get bs (8 + i * 8) (16 + i * 8)) eqn:E; cbn [of_opt obind] in H; [|discriminate].
+      getb E. eapply IH; [| |exact H]; lia.
+    + apply N.ltb_ge in Lt. lia.
+Qed.
+Lemma p_ssig_legacy_nc md V bs : small bs -> p_ssig_legacy md V bs <> Crash.
+Proof.
+  intros Hs. unfold p_ssig_legacy. peel. getb E.
+  apply bind_nc; [apply ss_loop_nc; [assumption|lia|unfold len; lia]|intros idx Hidx].
+  apply ss_loop_val in Hidx; [|assumption|lia|lia].
+  unfold small in Hs. rewrite BOUND_val in Hs.
+  peel; [|rewrite U64_val; lia]. peel; [|rewrite U64_val; lia]. peel; [|rewrite U64_val; lia].
+  peel. apply bind_nc; [apply p_sig_nc|intros sg _].
+  peel; [|rewrite U64_val; lia]. peel. discriminate.
+Qed.
+Lemma p_ssig_nc md V bs : small bs -> p_ssig md V bs <> Crash.
+Proof. intros. apply versioned_nc, p_ssig_legacy_nc. assumption. Qed.
+
+(* ---------- ClosedRegistrationEntry ---------- *)
+Lemma p_reg_legacy_nc V bs : p_reg_legacy V bs <> Crash.
+Proof. unfold p_reg_legacy. peel. apply bind_nc; [apply p_vk_nc|intros vk _]. peel. discriminate. Qed.
+Lemma p_reg_nc V bs : p_reg V bs <> Crash.
+Proof. apply versioned_nc, p_reg_legacy_nc. Qed.
+
+(* ---------- SingleSignatureWithRegisteredParty ---------- *)
+Lemma p_sigreg_legacy_nc md V bs : small bs -> p_sigreg_legacy md V bs <> Crash.
+Proof.
+  intros Hs. unfold p_sigreg_legacy. peel. peel. peel.
+  apply bind_nc; [apply p_reg_nc|intros r _].
+  getb E1. unfold small in Hs. rewrite BOUND_val in Hs.
+  peel; [|rewrite U64_val; lia]. peel. peel. peel.
+  apply bind_nc; [|intros; discriminate].
+  apply p_ssig_nc. getb E4. unfold small. rewrite BOUND_val. lia.
+Qed.
+Lemma p_sigreg_nc md V bs : small bs -> p_sigreg md V bs <> Crash.
+Proof. intros. apply versioned_nc, p_sigreg_legacy_nc. assumption. Qed.
+
+(* ---------- MerkleBatchPath ---------- *)
+Lemma bp_vals_nc bs n : small bs ->
+  forall fuel i acc, i <= len bs -> len bs < N.of_nat fuel + i -> bp_vals fuel bs i n acc <> Crash.
+Proof.
+  unfold small. rewrite BOUND_val. intros Hs. induction fuel as [|f IH]; intros i acc Hi Hf.
+  - lia.
+  - cbn [bp_vals]. destruct (i <? n); [|discriminate].
+    peel. peel. peel. getb E1.
+    unfold oand in E0. destruct (cadd i 1) as [x|] eqn:C1; [|discriminate].
+    destruct (cmul x HASH) as [y|] eqn:C2; [|discriminate].
+    apply cadd_some in C1. apply cmul_some in C2. apply cadd_some in E0. unfold HASH in *.
+    apply IH; lia.
+Qed.
+Lemma bp_idx_nc bs off n : small bs ->
+  forall fuel i acc, i <= len bs -> len bs < N.of_nat fuel + i -> bp_idx fuel bs off i n acc <> Crash.
+Proof.
+  unfold small. rewrite BOUND_val. intros Hs. induction fuel as [|f IH]; intros i acc Hi Hf.
+  - lia.
+  - cbn [bp_idx]. destruct (i <? n); [|discriminate].
+    peel. peel. peel. getb E1.
+    unfold oand in E0. destruct (cadd i 1) as [x|] eqn:C1; [|discriminate].
+    destruct (cmul x 8) as [y|] eqn:C2; [|discriminate].
+    apply cadd_some in C1. apply cmul_some in C2. apply cadd_some in E0.
+    apply IH; lia.
+Qed.
+Lemma p_bpath_legacy_nc bs : small bs -> p_bpath_legacy bs <> Crash.
+Proof.
+  intros Hs. unfold p_bpath_legacy. peel. peel.
+  apply bind_nc; [apply bp_vals_nc; [assumption|lia|unfold len; lia]|intros vals _].
+  peel.
+  apply bind_nc; [apply bp_idx_nc; [assumption|lia|unfold len; lia]|intros idx _]. discriminate.
+Qed.
+Lemma p_bpath_nc bs : small bs -> p_bpath bs <> Crash.
+Proof. intros. apply versioned_nc, p_bpath_legacy_nc. assumption. Qed.
+
+(* ---------- MerkleTreeBatchCommitment, aggregate verification key ---------- *)
+Lemma p_bcommit_legacy_nc bs : p_bcommit_legacy bs <> Crash.
+Proof. unfold p_bcommit_legacy. repeat peel. Qed.
+Lemma p_bcommit_nc bs : p_bcommit bs <> Crash.
+Proof. apply versioned_nc, p_bcommit_legacy_nc. Qed.
+Lemma p_avk_legacy_nc bs : p_avk_legacy bs <> Crash.
+Proof.
+  unfold p_avk_legacy. peel. peel. peel.
+  apply bind_nc; [apply p_bcommit_nc|intros; discriminate].
+Qed.
+Lemma p_avk_nc bs : p_avk bs <> Crash.
+Proof. apply versioned_nc, p_avk_legacy_nc. Qed.
+
+(* ---------- MerkleTree ---------- *)
+Lemma npow2_pos n : 1 <= npow2 n.
+Proof.
+  unfold npow2. destruct (n =? 0); [lia|].
+  assert (2 ^ N.log2_up n <> 0) by (apply N.pow_nonzero; lia). lia.
+Qed.
+Lemma mt_num_nodes_nc md n : mt_num_nodes md n <> Crash.
+Proof.
+  unfold mt_num_nodes. peel. peel.
+  unfold checked_npow2 in E. destruct (npow2 n <? U64); inversion E; subst.
+  apply cadd_some in E0. pose proof (npow2_pos n).
+  rewrite msub_ok by lia. discriminate.
+Qed.
+Lemma mt_num_nodes_val md n k : mt_num_nodes md n = Val k -> n <= k.
+Proof.
+  unfold mt_num_nodes. intros H.
+  destruct (checked_npow2 n) eqn:E; cbn [of_opt obind] in H; [|discriminate].
+  destruct (cadd n n0) eqn:E0; cbn [of_opt obind] in H; [|discriminate].
+  unfold checked_npow2 in E. destruct (npow2 n <? U64); inversion E; subst.
+  apply cadd_some in E0. pose proof (npow2_pos n).
+  rewrite msub_ok in H by lia. cbn in H. inversion H. lia.
+Qed.
+Lemma mt_loop_nc md bs n : small bs ->
+  forall fuel i acc, i <= len bs -> len bs < N.of_nat fuel + i -> mt_loop md fuel bs i n acc <> Crash.
+Proof.
+  unfold small. rewrite BOUND_val. intros Hs. induction fuel as [|f IH]; intros i acc Hi Hf.
+  - lia.
+  - cbn [mt_loop]. destruct (i <? n); [|discriminate]. unfold HASH.
+    peel; [|rewrite U64_val; lia]. peel; [|rewrite U64_val; lia]. peel; [|rewrite U64_val; lia].
+    peel; [|rewrite U64_val; lia]. peel; [|rewrite U64_val; lia].
+    peel. getb E. apply IH; lia.
+Qed.
+Lemma mt_capacity_le bs k : mt_capacity bs k * VEC_SIZE <= len bs.
+Proof.
+  unfold mt_capacity, VEC_SIZE, HASH.
+  assert (N.min k (len bs / 32) <= len bs / 32) by lia.
+  pose proof (N.mul_div_le (len bs) 32). lia.
+Qed.
+Lemma p_mtree_legacy_nc md bs : small bs -> p_mtree_legacy md bs <> Crash.
+Proof.
+  intros Hs. unfold p_mtree_legacy. peel.
+  apply bind_nc; [apply mt_num_nodes_nc|intros k Hk]. apply mt_num_nodes_val in Hk.
+  unfold alloc_ok. pose proof (mt_capacity_le bs k) as Hc.
+  assert (Hle : mt_capacity bs k * VEC_SIZE <=? ISIZE_MAX = true).
+  { apply N.leb_le. unfold small in Hs. rewrite BOUND_val in Hs. rewrite ISIZE_val. lia. }
+  rewrite Hle. cbn [obind].
+  apply bind_nc; [apply mt_loop_nc; [assumption|lia|unfold len; lia]|intros nodes _].
+  peel; [|lia]. discriminate.
+Qed.
+Lemma p_mtree_nc md bs : small bs -> p_mtree md bs <> Crash.
+Proof. intros. apply versioned_nc, p_mtree_legacy_nc. assumption. Qed.
+
+(* ---------- ConcatenationProof, AggregateSignature ---------- *)
+Lemma cp_loop_nc md V bs n : small bs ->
+  forall fuel k idx acc, 8 * k <= idx -> idx <= len bs -> len bs < N.of_nat fuel + k ->
+  cp_loop md V fuel bs k n idx acc <> Crash.
+Proof.
+  intros Hs. pose proof Hs as Hs'. unfold small in Hs'. rewrite BOUND_val in Hs'.
+  induction fuel as [|f IH]; intros k idx acc Hk Hi Hf.
+  - lia.
+  - cbn [cp_loop]. destruct (k <? n); [|discriminate].
+    peel; [|rewrite U64_val; lia]. peel. peel. peel.
+    getb E. apply cadd_some in E0. getb E1.
+    apply bind_nc; [apply p_sigreg_nc; unfold small; rewrite BOUND_val; lia|intros sr _].
+    apply IH; lia.
+Qed.
+Lemma cp_loop_val md V bs n :
+  forall fuel k idx acc r, idx <= len bs -> cp_loop md V fuel bs k n idx acc = Val r -> snd r <= len bs.
+Proof.
+  induction fuel as [|f IH]; intros k idx acc r Hi H.
+  - discriminate.
+  - cbn [cp_loop] in H. destruct (k <? n).
+    + apply bind_val in H. destruct H as [i8 [_ H]].
+      apply bind_val in H. destruct H as [h [_ H]].
+      apply bind_val in H. destruct H as [e [_ H]].
+      apply bind_val in H. destruct H as [sb [Hsb H]].
+      apply bind_val in H. destruct H as [sr [_ H]].
+      destruct (get bs i8 e) eqn:G; cbn in Hsb; [|discriminate]. getb G.
+      eapply IH; [|exact H]. lia.
+    + inversion H. cbn. assumption.
+Qed.
+Lemma cp_capacity_le bs total : cp_capacity bs total * SIGREG_SIZE <= 45 * len bs.
+Proof.
+  unfold cp_capacity, SIGREG_SIZE.
+  assert (N.min total (len bs / 8) <= len bs / 8) by lia.
+  pose proof (N.mul_div_le (len bs) 8). lia.
+Qed.
+Lemma p_cproof_legacy_nc md V bs : small bs -> p_cproof_legacy md V bs <> Crash.
+Proof.
+  intros Hs. unfold p_cproof_legacy. peel. getb E.
+  unfold alloc_ok.
+  match goal with |- context [cp_capacity bs ?t] =>
+    pose proof (cp_capacity_le bs t) as Hc;
+    assert (Hle : cp_capacity bs t * SIGREG_SIZE <=? ISIZE_MAX = true)
+      by (apply N.leb_le; unfold small in Hs; rewrite BOUND_val in Hs; rewrite ISIZE_val; lia);
+    rewrite Hle end.
+  cbn [obind].
+  apply bind_nc; [apply cp_loop_nc; [assumption|lia|lia|unfold len; lia]|intros r Hr].
+  apply cp_loop_val in Hr; [|lia].
+  peel. apply bind_nc; [|intros; discriminate].
+  apply p_bpath_nc. getb E0. unfold small in *. lia.
+Qed.
+Lemma p_cproof_nc md V bs : small bs -> p_cproof md V bs <> Crash.
+Proof. intros. apply versioned_nc, p_cproof_legacy_nc. assumption. Qed.
+Lemma p_aggr_nc md V bs : small bs -> p_aggr md V bs <> Crash.
+Proof.
+  intros Hs. unfold p_aggr.
+  assert (L : p_aggr_legacy md V bs <> Crash).
+  { unfold p_aggr_legacy. destruct bs as [|t rest]; [discriminate|].
+    destruct (t =? 0); [|discriminate]. apply p_cproof_nc.
+    unfold small, len in *. cbn [length] in Hs. lia. }
+  destruct bs as [|b r]; [exact L|]. destruct b as [|p]; [exact L|]. destruct p; try exact L. discriminate.
+Qed.
+
+(* ---------- Initializer ---------- *)
+Lemma p_init_legacy_nc V bs : p_init_legacy V bs <> Crash.
+Proof.
+  unfold p_init_legacy. peel. peel. apply bind_nc; [apply p_params_nc|intros ps _].
+  peel. apply bind_nc; [apply p_sk_nc|intros sk _].
+  peel. apply bind_nc; [apply p_vkpop_nc|intros; discriminate].
+Qed.
+Lemma p_init_nc V bs : p_init V bs <> Crash.
+Proof. apply versioned_nc, p_init_legacy_nc. Qed.
